@@ -319,6 +319,9 @@ class Typer:
             if it[0] in ('idx', 'idxplus'):
                 s.check_index(it, axes[k], text, what); continue
             if it[0] == 'num': continue
+            if it[0] == 'mask':
+                s.ob('mask-select', same(it[1], axes[k]), f"mask laid out as {show(it[1])} selects on an axis laid out as {show(axes[k])}", text, (it[1], axes[k]))
+                out.append(('SUB', axes[k], it[2])); continue
             if it[0] == 'arr' and len(it[1]) == 1:
                 s.ob('mask-select', same(it[1][0], axes[k]), f"mask laid out as {show(it[1][0])} selects on an axis laid out as {show(axes[k])}", text, (it[1][0], axes[k]))
                 out.append(('SUB', axes[k], 'data-dependent-mask#' + str(next(_cnt)))); continue
@@ -351,6 +354,11 @@ class Typer:
             up = s.ty(x[3]) if x[3] is not None else None
             return ('slice', lo, up)
         if isinstance(x, int) and not isinstance(x, bool): return NUM
+        if isinstance(x, tuple) and x[:1] == ('comp',) and len(x) == 4 and x[1] in ('list', 'gen') and len(x[3]) == 1 and not x[3][0][1]:
+            # a mask written as [test(l) for l in labels] with a NAMED test: selects the named subset of the axis the labels lay out
+            fk = s.filter_key(x[2], ('β', 0, x[3][0][0]))
+            sp = s.iter_space(s.ty(x[3][0][0]))
+            if sp is not None and isinstance(fk, str) and fk.startswith(('in:', 'notin:', 'pred:', 'not:')): return ('mask', sp, fk)
         t = s.ty(x)
         if t[0] == 'labs': return unk('labels as index')
         if t[0] == 'tuple' and t[1] and all(e[0] in ('idx', 'idxplus') for e in t[1]): return t
@@ -486,6 +494,13 @@ class Typer:
         c = s.any(callee)
         for a in args: s.ty(a)
         if c[0] == 'map':
+            stars = [a for a in args if isinstance(a, tuple) and a[:2] == ('opq', '*')]
+            if stars:
+                # mapping(*labels): the positions of ALL the labels, in their order -- a list of indices, not one index
+                if len(args) == 1 and len(stars[0]) == 3:
+                    sp = s.iter_space(s.ty(stars[0][2]))
+                    return ('idxs', c[1], sp if sp is not None else U('starred labels'))
+                return unk('call with starred and plain labels')
             ix = [('idx', c[1], None) for _ in args]
             return ix[0] if len(ix) == 1 else ('tuple', ix)
         if c[0] == 'fnattr' and c[2] in ('keys',): return ('labs', ('ORD', c[1][1]))
